@@ -149,7 +149,15 @@ static void do_dispatch(const std::string &line, const J &in, FILE *out) {
                 // (2) with location buffer
                 calls.clear(); dflt_calls = 0; Cap d2; char loc[256]; memset(loc, 0x7e, sizeof loc); loc[0] = 0; d2.obj = &root_obj; d2.loc = loc; d2.loc_size = sizeof loc;
                 top->dispatch((const char *)mb.p, d2, true); auto c2 = calls; int df2 = dflt_calls;
+                // (3) with a location buffer that holds the address exactly, and (4) one that is three bytes too short: loc_size is "the length of the buffer" (ports.h) -
+                // nothing may be written behind it; what a dispatch does when the address does not fit is not specified, only that it stays inside
+                std::vector<Call> c3; int m3 = -1, asan_tight = 0, asan_short = 0;
+                { size_t need = addr.size() + 1; FlushBuf lb(need); memset(lb.p, 0x7e, need); lb.p[0] = 0; calls.clear(); dflt_calls = 0; Cap d3; d3.obj = &root_obj; d3.loc = (char *)lb.p; d3.loc_size = need; int h3 = vg_asan_hits;
+                  top->dispatch((const char *)mb.p, d3, true); c3 = calls; m3 = d3.matches; asan_tight = vg_asan_hits - h3; }
+                if (addr.size() > 4) { size_t sz = addr.size() - 2; FlushBuf lb(sz); memset(lb.p, 0x7e, sz); lb.p[0] = 0; calls.clear(); dflt_calls = 0; Cap d4; d4.obj = &root_obj; d4.loc = (char *)lb.p; d4.loc_size = sz; int h4 = vg_asan_hits;
+                  top->dispatch((const char *)mb.p, d4, true); asan_short = vg_asan_hits - h4; }
                 w.obj().kbytes("addr", (const uint8_t *)ja.text().data(), ja.text().size()).kbytes("tags", (const uint8_t *)TAGS[t], strlen(TAGS[t]));
+                w.key("tight"); calls_json(w, c3); w.knum("matches_tight", m3).knum("asan_tight", asan_tight).knum("asan_short", asan_short);
                 w.key("noloc"); calls_json(w, c1); w.key("loc"); calls_json(w, c2);
                 w.knum("matches_noloc", d1.matches).knum("matches", d2.matches).knum("dflt_noloc", df1).knum("dflt", df2).kbool("obj_restored", objrest1 && d2.obj == &root_obj)
                  .kbytes("loc_after", (const uint8_t *)loc, strnlen(loc, sizeof loc)).knum("asan", vg_asan_hits - h0).end_obj();
